@@ -36,6 +36,9 @@ UserClasses == {
   Cls("StopIter", EX, TRUE, FALSE, "same", "ok", "builtin"),                      \* StopIteration(3)
   WithEq(Cls("UEqRaise", EX, TRUE, FALSE, "same", "ok", "user"), "raises"),      \* __eq__: self.code == other.code
   WithEq(Cls("UEqAll", EX, TRUE, FALSE, "same", "ok", "user"), "always"),         \* __eq__ -> True
+  Cls("USlots", EX, TRUE, FALSE, "same", "ok", "user"),                           \* __slots__ = ('code',), no __dict__
+  Cls("UArgEq", EX, TRUE, FALSE, "same", "ok", "user"),                           \* args hold an object whose __eq__ raises
+  Cls("UReg",   EX, TRUE, FALSE, "same", "ok", "user"),                           \* class-level registry of every instance made
   Falsy(Cls("UFalsy", EX, TRUE, FALSE, "same", "ok", "user")),                    \* __len__ -> 0: bool(e) is False
   Falsy(Cls("GFalsy", GE, TRUE, TRUE, "same", "ok", "user")),                     \* GlomError subclass, __bool__ -> False
   \* user subclasses of the library's own error classes, constructed the way the library does
@@ -58,6 +61,7 @@ CoalShapes == {<<"none", "absent">>, <<"none", "obj">>, <<"ok", "absent">>}
 RichPool ==
   {Ctx("pass", v, "-", "-", "-") : v \in PassVariants}
   \cup {Ctx("coal", "-", s, sh[1], sh[2]) : s \in CoalSkips, sh \in CoalShapes}
+  \cup {Ctx("coal", "-", "empty", "none", "absent"), Ctx("coal", "-", "empty", "none", "obj")}
   \cup {Ctx("or", "first", "-", "ok", "absent"), Ctx("or", "last", "-", "none", "obj")}
   \cup {Ctx("and", "-", "-", "-", "obj"), Ctx("not", "-", "-", "-", "-"), Ctx("matchdef", "-", "-", "-", "obj")}
   \cup {Ctx("switch", "key", "-", "ok", "absent"), Ctx("switch", "key", "-", "none", "absent"),
@@ -74,6 +78,7 @@ CorePool ==
 \* geniter: the target is a generator raising at its 1st / 2nd next() under a [subspec] spec
 LeafPool == {Ctx("checkval", "-", "-", "-", "-"), Ctx("pathget", "-", "-", "-", "-"),
              Ctx("geniter", "k1", "-", "-", "-"), Ctx("geniter", "k2", "-", "-", "-"),
+             Ctx("geniter", "k3", "-", "-", "-"),     \* after the last item that is legitimately pulled
              \* targ: the fault is inside the index / argument spec of a T operation
              Ctx("targ", "idx_spec", "-", "-", "-"), Ctx("targ", "idx_invoke", "-", "-", "-"),
              Ctx("targ", "call_spec", "-", "-", "-"),
@@ -87,14 +92,16 @@ LeafPool == {Ctx("checkval", "-", "-", "-", "-"), Ctx("pathget", "-", "-", "-", 
 Pool(n) == IF Rich \/ n <= 1 THEN RichPool ELSE CorePool
 
 Defaults == {"absent", "obj", "none"}
-ObjDefaults == {"list", "dictT", "t"}      \* containers / T-like defaults: "the default object itself"
+ObjDefaults == {"list", "dictT", "t", "ntup", "zero", "elist", "fobj"}      \* containers / T-like defaults: "the default object itself"
 Skips == {"absent", "exact", "other", "tuple", "tuple_non", "glomerror", "exception", "keyerror", "base", "empty"}
 Kw(d, s, g) == [default |-> d, skip |-> s, debug |-> g]
 Kws == CASE KwMode = "full" -> {Kw(d, s, g) : d \in Defaults, s \in Skips, g \in BOOLEAN}
-                               \cup {Kw(d, s, FALSE) : d \in ObjDefaults, s \in Skips}
+                               \cup {Kw(d, s, FALSE) : d \in ObjDefaults,
+                                        s \in {"absent", "exact", "glomerror", "exception", "empty", "tuple"}}
          [] KwMode = "mid"  -> {Kw(d, s, FALSE) : d \in {"absent", "obj"}, s \in {"absent", "exact", "glomerror"}}
                                \cup {Kw("none", "empty", FALSE), Kw("list", "exception", FALSE),
-                                     Kw("absent", "absent", TRUE)}
+                                     Kw("absent", "absent", TRUE), Kw("zero", "tuple", FALSE),
+                                     Kw("fobj", "glomerror", FALSE)}
          [] KwMode = "tiny" -> {Kw("absent", "absent", FALSE), Kw("obj", "absent", FALSE),
                                 Kw("absent", "exact", TRUE)}
          [] OTHER           -> {Kw("absent", "absent", FALSE), Kw("obj", "absent", FALSE),
